@@ -2,8 +2,11 @@
 C29  Commutative constructors are order independent: the canonical operand ordering `cmp_expr`
 is a consistent total preorder.
 
-Model: Model/Order.lean (`Expr.cmp`), tied to ufl/sorting.py by the regenerated typecode table and
-by running model and implementation on the same ordered pairs.  Method: every triple of expressions
+Model: Model/Order.lean (`Expr.cmp`), tied to ufl/sorting.py by the regenerated typecode table, the regenerated choice
+of terminal comparators (`OrdCfg.live`, Gen/OrderVariant.lean) and by running model and implementation on the same
+ordered pairs.  Every theorem is proved for an arbitrary choice `cfg : OrdCfg` of the key-comparing comparators
+(`*_cfg`: in particular for `OrdCfg.byRepr` and `OrdCfg.numeric`); the `C29_*` theorems about `Expr.cmp` are the
+instances at `OrdCfg.live`.  Method: every triple of expressions
 is ordered *consistently* (the three pairwise comparisons are those of some ranking of the three);
 this is closed under the lexicographic composition `cmp_expr` is made of.
 -/
@@ -57,24 +60,24 @@ theorem consistent3_of_transCmp {α : Type} (c : α → α → Ordering) [TransC
 
 /-! ## the shape of `cmp_expr` -/
 
-def inner (mi : List Idx → List Idx → Ordering) (a b : Expr) : Ordering :=
+def inner (cfg : OrdCfg) (mi : List Idx → List Idx → Ordering) (a b : Expr) : Ordering :=
   match a, b with
-  | .op _ _ as, .op _ _ bs => thn (compare as.length bs.length) (cmpLWith mi as bs)
-  | _, _ => cmpTerm mi a b
+  | .op _ _ as, .op _ _ bs => thn (compare as.length bs.length) (cmpLWith cfg mi as bs)
+  | _, _ => cmpTerm cfg mi a b
 
-theorem cmp_unfold (mi : List Idx → List Idx → Ordering) (a b : Expr) :
-    cmpWith mi a b = thn (compare (typecode a) (typecode b)) (inner mi a b) := by
+theorem cmp_unfold (cfg : OrdCfg) (mi : List Idx → List Idx → Ordering) (a b : Expr) :
+    cmpWith cfg mi a b = thn (compare (typecode a) (typecode b)) (inner cfg mi a b) := by
   unfold cmpWith inner thn
   cases h : compare (typecode a) (typecode b) <;> simp only
   cases a <;> cases b <;> simp only
   rename_i k aux as k' aux' bs
   cases compare as.length bs.length <;> rfl
 
-theorem cmpL_cons (mi : List Idx → List Idx → Ordering) (a b : Expr) (as bs : List Expr) :
-    cmpLWith mi (a :: as) (b :: bs) = thn (cmpLWith mi as bs) (cmpWith mi a b) := by
+theorem cmpL_cons (cfg : OrdCfg) (mi : List Idx → List Idx → Ordering) (a b : Expr) (as bs : List Expr) :
+    cmpLWith cfg mi (a :: as) (b :: bs) = thn (cmpLWith cfg mi as bs) (cmpWith cfg mi a b) := by
   rw [cmpLWith]
   unfold thn
-  cases cmpLWith mi as bs <;> rfl
+  cases cmpLWith cfg mi as bs <;> rfl
 
 /-! ## multi-indices -/
 
@@ -113,6 +116,62 @@ theorem cmpIdx_refl (i : Idx) : cmpIdx i i = .eq := by
 theorem cmpMI_refl : ∀ a : List Idx, cmpMI a a = .eq
   | [] => rfl
   | i :: is => by rw [cmpMI_cons, cmpIdx_refl]; exact cmpMI_refl is
+
+/-! ## sort keys (the key-comparing terminal comparators) -/
+
+theorem cmpAtom_consistent (x y z : KeyAtom) : consistent3 (cmpAtom x y) (cmpAtom y z) (cmpAtom x z) = true := by
+  cases x <;> cases y <;> cases z <;> simp only [cmpAtom] <;>
+    first
+    | exact consistent3_of_transCmp (compare : Int → Int → Ordering) _ _ _
+    | exact consistent3_of_transCmp (compare : String → String → Ordering) _ _ _
+    | rfl
+    | (generalize compare (_ : Int) _ = x; cases x <;> rfl)
+    | (generalize compare (_ : String) _ = x; cases x <;> rfl)
+
+theorem lexCmp_cons {α : Type} (c : α → α → Ordering) (x y : α) (xs ys : List α) :
+    lexCmp c (x :: xs) (y :: ys) = thn (c x y) (lexCmp c xs ys) := by
+  rw [lexCmp]
+  unfold thn
+  cases c x y <;> rfl
+
+/-- Python's tuple comparison orders every triple consistently if the comparison of the entries does -/
+theorem lexCmp_consistent {α : Type} (c : α → α → Ordering) (hc : ∀ x y z, consistent3 (c x y) (c y z) (c x z) = true) :
+    ∀ (a b d : List α), consistent3 (lexCmp c a b) (lexCmp c b d) (lexCmp c a d) = true
+  | [], [], [] => rfl
+  | [], [], _ :: _ => rfl
+  | [], _ :: _, [] => rfl
+  | [], j :: js, k :: ks => by
+    rw [show lexCmp c [] (j :: js) = .lt from rfl, show lexCmp c [] (k :: ks) = .lt from rfl]; exact consistent3_lt_any_lt _
+  | _ :: _, [], [] => rfl
+  | i :: is, [], k :: ks => by
+    rw [show lexCmp c (i :: is) [] = .gt from rfl, show lexCmp c [] (k :: ks) = .lt from rfl]
+    generalize lexCmp c (i :: is) (k :: ks) = x; cases x <;> rfl
+  | i :: is, j :: js, [] => by
+    rw [show lexCmp c (j :: js) [] = .gt from rfl, show lexCmp c (i :: is) [] = .gt from rfl]
+    generalize lexCmp c (i :: is) (j :: js) = x; cases x <;> rfl
+  | i :: is, j :: js, k :: ks => by
+    rw [lexCmp_cons, lexCmp_cons, lexCmp_cons]
+    exact consistent3_thn _ _ _ _ _ _ (hc i j k) (fun _ _ => lexCmp_consistent c hc is js ks)
+
+theorem lexCmp_refl {α : Type} (c : α → α → Ordering) (hc : ∀ x, c x x = .eq) : ∀ a : List α, lexCmp c a a = .eq
+  | [] => rfl
+  | i :: is => by rw [lexCmp_cons, hc i]; exact lexCmp_refl c hc is
+
+theorem cmpAtoms_consistent (a b d : List KeyAtom) : consistent3 (cmpAtoms a b) (cmpAtoms b d) (cmpAtoms a d) = true :=
+  lexCmp_consistent cmpAtom cmpAtom_consistent a b d
+
+theorem cmpKey_cons (p : KeyPart) (ps : List KeyPart) (a b : Expr) :
+    cmpKey (p :: ps) a b = thn (cmpAtoms (keyOf p a) (keyOf p b)) (cmpKey ps a b) := by
+  rw [cmpKey]
+  unfold thn
+  cases cmpAtoms (keyOf p a) (keyOf p b) <;> rfl
+
+/-- a three-way comparison of sort keys orders every triple consistently, whatever the key is made of -/
+theorem cmpKey_consistent : ∀ (ps : List KeyPart) (a b d : Expr), consistent3 (cmpKey ps a b) (cmpKey ps b d) (cmpKey ps a d) = true
+  | [], _, _, _ => rfl
+  | p :: ps, a, b, d => by
+    rw [cmpKey_cons, cmpKey_cons, cmpKey_cons]
+    exact consistent3_thn _ _ _ _ _ _ (cmpAtoms_consistent _ _ _) (fun _ _ => cmpKey_consistent ps a b d)
 
 /-! ## well-formed class names -/
 
@@ -267,11 +326,11 @@ theorem same_class (a b : Expr) (ha : Sane a = true) (hb : Sane b = true)
   have hc := tc_inj _ _ (sane_name a ha) (sane_name b hb) ht
   exact ⟨hc, sane_kind a b ha hb hc⟩
 
-theorem c3_of_inner (a b c : Expr) (ha : Sane a = true) (hb : Sane b = true) (hc : Sane c = true)
+theorem c3_of_inner (cfg : OrdCfg) (a b c : Expr) (ha : Sane a = true) (hb : Sane b = true) (hc : Sane c = true)
     (hin : className a = className b → kind a = kind b → className b = className c → kind b = kind c →
-      consistent3 (inner cmpMI a b) (inner cmpMI b c) (inner cmpMI a c) = true) :
-    consistent3 (cmp a b) (cmp b c) (cmp a c) = true := by
-  unfold cmp
+      consistent3 (inner cfg cmpMI a b) (inner cfg cmpMI b c) (inner cfg cmpMI a c) = true) :
+    consistent3 (cmpC cfg a b) (cmpC cfg b c) (cmpC cfg a c) = true := by
+  unfold cmpC
   rw [cmp_unfold, cmp_unfold, cmp_unfold]
   apply consistent3_thn
   · exact consistent3_of_transCmp (compare : Nat → Nat → Ordering) _ _ _
@@ -287,40 +346,40 @@ theorem sane_op_args (k : Op) (aux : List Nat) (args : List Expr) (h : Sane (.op
   cases k <;> simp only [Sane, Bool.and_eq_true, Bool.false_eq_true] at h <;> exact h.2
 
 mutual
-theorem c3 : ∀ (a : Expr), Sane a = true → ∀ b c, Sane b = true → Sane c = true →
-    consistent3 (cmp a b) (cmp b c) (cmp a c) = true
+theorem c3 (cfg : OrdCfg) : ∀ (a : Expr), Sane a = true → ∀ b c, Sane b = true → Sane c = true →
+    consistent3 (cmpC cfg a b) (cmpC cfg b c) (cmpC cfg a c) = true
   | .int x, ha, b, c, hb, hc => by
-    apply c3_of_inner _ _ _ ha hb hc
+    apply c3_of_inner cfg _ _ _ ha hb hc
     intro _ k1 _ k2
     cases b <;> simp only [kind] at k1 <;> try (exact absurd k1 (by decide))
     cases c <;> simp only [kind] at k2 <;> try (exact absurd k2 (by decide))
     exact consistent3_of_transCmp (compare : String → String → Ordering) _ _ _
   | .real x y, ha, b, c, hb, hc => by
-    apply c3_of_inner _ _ _ ha hb hc
+    apply c3_of_inner cfg _ _ _ ha hb hc
     intro _ k1 _ k2
     cases b <;> simp only [kind] at k1 <;> try (exact absurd k1 (by decide))
     cases c <;> simp only [kind] at k2 <;> try (exact absurd k2 (by decide))
     exact consistent3_of_transCmp (compare : String → String → Ordering) _ _ _
   | .cplx x y z w, ha, b, c, hb, hc => by
-    apply c3_of_inner _ _ _ ha hb hc
+    apply c3_of_inner cfg _ _ _ ha hb hc
     intro _ k1 _ k2
     cases b <;> simp only [kind] at k1 <;> try (exact absurd k1 (by decide))
     cases c <;> simp only [kind] at k2 <;> try (exact absurd k2 (by decide))
     exact consistent3_of_transCmp (compare : String → String → Ordering) _ _ _
   | .zero x y, ha, b, c, hb, hc => by
-    apply c3_of_inner _ _ _ ha hb hc
+    apply c3_of_inner cfg _ _ _ ha hb hc
     intro _ k1 _ k2
     cases b <;> simp only [kind] at k1 <;> try (exact absurd k1 (by decide))
     cases c <;> simp only [kind] at k2 <;> try (exact absurd k2 (by decide))
-    exact consistent3_of_transCmp (compare : String → String → Ordering) _ _ _
+    exact cmpKey_consistent _ _ _ _
   | .mi x, ha, b, c, hb, hc => by
-    apply c3_of_inner _ _ _ ha hb hc
+    apply c3_of_inner cfg _ _ _ ha hb hc
     intro _ k1 _ k2
     cases b <;> simp only [kind] at k1 <;> try (exact absurd k1 (by decide))
     cases c <;> simp only [kind] at k2 <;> try (exact absurd k2 (by decide))
     exact cmpMI_consistent _ _ _
   | .term x, ha, b, c, hb, hc => by
-    apply c3_of_inner _ _ _ ha hb hc
+    apply c3_of_inner cfg _ _ _ ha hb hc
     intro c1 k1 c2 k2
     cases b <;> simp only [kind] at k1 <;> try (exact absurd k1 (by decide))
     cases c <;> simp only [kind] at k2 <;> try (exact absurd k2 (by decide))
@@ -337,10 +396,16 @@ theorem c3 : ∀ (a : Expr), Sane a = true → ∀ b c, Sane b = true → Sane c
           (fun _ _ => consistent3_of_transCmp (compare : Int → Int → Ordering) _ _ _)
       · by_cases h3 : x.cls = "Label"
         · simp only [h1, h2, h3, ↓reduceIte]; rfl
-        · simp only [h1, h2, h3, ↓reduceIte]
-          exact consistent3_of_transCmp (compare : String → String → Ordering) _ _ _
+        · by_cases h4 : x.cls = "Constant"
+          · simp only [h1, h2, h3, h4, ↓reduceIte]
+            exact cmpKey_consistent _ _ _ _
+          · by_cases h5 : isGeo x.cls = true
+            · simp only [h1, h2, h3, h4, h5, ↓reduceIte]
+              exact cmpKey_consistent _ _ _ _
+            · simp only [h1, h2, h3, h4, h5, ↓reduceIte]
+              exact consistent3_of_transCmp (compare : String → String → Ordering) _ _ _
   | .op k aux as, ha, b, c, hb, hc => by
-    apply c3_of_inner _ _ _ ha hb hc
+    apply c3_of_inner cfg _ _ _ ha hb hc
     intro c1 k1 c2 k2
     cases b <;> simp only [kind] at k1 <;> try (exact absurd k1 (by decide))
     cases c <;> simp only [kind] at k2 <;> try (exact absurd k2 (by decide))
@@ -349,11 +414,11 @@ theorem c3 : ∀ (a : Expr), Sane a = true → ∀ b c, Sane b = true → Sane c
     apply consistent3_thn
     · exact consistent3_of_transCmp (compare : Nat → Nat → Ordering) _ _ _
     · intro h1 h2
-      exact c3L as (sane_op_args _ _ _ ha) bs cs (sane_op_args _ _ _ hb) (sane_op_args _ _ _ hc)
+      exact c3L cfg as (sane_op_args _ _ _ ha) bs cs (sane_op_args _ _ _ hb) (sane_op_args _ _ _ hc)
         (compare_eq_iff_eq.mp h1) (compare_eq_iff_eq.mp h2)
-theorem c3L : ∀ (as : List Expr), SaneL as = true → ∀ bs cs, SaneL bs = true → SaneL cs = true →
+theorem c3L (cfg : OrdCfg) : ∀ (as : List Expr), SaneL as = true → ∀ bs cs, SaneL bs = true → SaneL cs = true →
     as.length = bs.length → bs.length = cs.length →
-    consistent3 (cmpLWith cmpMI as bs) (cmpLWith cmpMI bs cs) (cmpLWith cmpMI as cs) = true
+    consistent3 (cmpLWith cfg cmpMI as bs) (cmpLWith cfg cmpMI bs cs) (cmpLWith cfg cmpMI as cs) = true
   | [], _, bs, cs, _, _, h1, h2 => by
     cases bs <;> cases cs <;> simp at h1 h2 <;> rfl
   | a :: as, ha, bs, cs, hb, hc, h1, h2 => by
@@ -366,8 +431,8 @@ theorem c3L : ∀ (as : List Expr), SaneL as = true → ∀ bs cs, SaneL bs = tr
         rw [cmpL_cons, cmpL_cons, cmpL_cons]
         have sa := saneL_cons _ _ ha; have sb := saneL_cons _ _ hb; have sc := saneL_cons _ _ hc
         exact consistent3_thn _ _ _ _ _ _
-          (c3L as sa.2 bs cs sb.2 sc.2 (by simpa using h1) (by simpa using h2))
-          (fun _ _ => c3 a sa.1 b c sb.1 sc.1)
+          (c3L cfg as sa.2 bs cs sb.2 sc.2 (by simpa using h1) (by simpa using h2))
+          (fun _ _ => c3 cfg a sa.1 b c sb.1 sc.1)
 end
 
 
@@ -375,15 +440,24 @@ theorem cmpNat_refl (n : Nat) : compare n n = .eq := ReflCmp.compare_self
 theorem cmpInt_refl (n : Int) : compare n n = .eq := ReflCmp.compare_self
 theorem cmpStr_refl (n : String) : compare n n = .eq := ReflCmp.compare_self
 
+theorem cmpAtom_refl (x : KeyAtom) : cmpAtom x x = .eq := by
+  cases x <;> simp [cmpAtom, cmpInt_refl, cmpStr_refl]
+
+theorem cmpKey_refl : ∀ (ps : List KeyPart) (a : Expr), cmpKey ps a a = .eq
+  | [], _ => rfl
+  | p :: ps, a => by
+    rw [cmpKey_cons, show cmpAtoms (keyOf p a) (keyOf p a) = .eq from lexCmp_refl cmpAtom cmpAtom_refl _]
+    exact cmpKey_refl ps a
+
 mutual
-theorem cmp_refl : ∀ a : Expr, cmp a a = .eq
-  | .int _ => by unfold cmp; rw [cmp_unfold, cmpNat_refl]; simp [thn, inner, cmpTerm, cmpStr_refl]
-  | .real _ _ => by unfold cmp; rw [cmp_unfold, cmpNat_refl]; simp [thn, inner, cmpTerm, cmpStr_refl]
-  | .cplx _ _ _ _ => by unfold cmp; rw [cmp_unfold, cmpNat_refl]; simp [thn, inner, cmpTerm, cmpStr_refl]
-  | .zero _ _ => by unfold cmp; rw [cmp_unfold, cmpNat_refl]; simp [thn, inner, cmpTerm, cmpStr_refl]
-  | .mi _ => by unfold cmp; rw [cmp_unfold, cmpNat_refl]; simp [thn, inner, cmpTerm, cmpMI_refl]
+theorem cmp_refl (cfg : OrdCfg) : ∀ a : Expr, cmpC cfg a a = .eq
+  | .int _ => by unfold cmpC; rw [cmp_unfold, cmpNat_refl]; simp [thn, inner, cmpTerm, cmpStr_refl]
+  | .real _ _ => by unfold cmpC; rw [cmp_unfold, cmpNat_refl]; simp [thn, inner, cmpTerm, cmpStr_refl]
+  | .cplx _ _ _ _ => by unfold cmpC; rw [cmp_unfold, cmpNat_refl]; simp [thn, inner, cmpTerm, cmpStr_refl]
+  | .zero _ _ => by unfold cmpC; rw [cmp_unfold, cmpNat_refl]; simp [thn, inner, cmpTerm, cmpKey_refl]
+  | .mi _ => by unfold cmpC; rw [cmp_unfold, cmpNat_refl]; simp [thn, inner, cmpTerm, cmpMI_refl]
   | .term d => by
-    unfold cmp; rw [cmp_unfold, cmpNat_refl]
+    unfold cmpC; rw [cmp_unfold, cmpNat_refl]
     simp only [thn, inner, cmpTerm]
     split
     · exact cmpInt_refl _
@@ -391,60 +465,98 @@ theorem cmp_refl : ∀ a : Expr, cmp a a = .eq
       · simp [cmpInt_refl]
       · split
         · rfl
-        · exact cmpStr_refl _
+        · split
+          · exact cmpKey_refl _ _
+          · split
+            · exact cmpKey_refl _ _
+            · exact cmpStr_refl _
   | .op k aux as => by
-    unfold cmp; rw [cmp_unfold, cmpNat_refl]
+    unfold cmpC; rw [cmp_unfold, cmpNat_refl]
     simp only [thn, inner, cmpNat_refl]
-    exact cmpL_refl as
-theorem cmpL_refl : ∀ as : List Expr, cmpLWith cmpMI as as = .eq
+    exact cmpL_refl cfg as
+theorem cmpL_refl (cfg : OrdCfg) : ∀ as : List Expr, cmpLWith cfg cmpMI as as = .eq
   | [] => by simp [cmpLWith]
   | a :: as => by
-    rw [cmpL_cons, cmpL_refl as]
+    rw [cmpL_cons, cmpL_refl cfg as]
     simp only [thn]
-    exact cmp_refl a
+    exact cmp_refl cfg a
 end
 
-/-! ## The property theorems -/
+/-- `sorted_expr((a, b))` under the comparators `cfg` (`sort2` is the instance at `OrdCfg.live`) -/
+def sort2C (cfg : OrdCfg) (a b : Expr) : Expr × Expr := if cmpC cfg b a = .lt then (b, a) else (a, b)
+
+theorem sort2_eq (a b : Expr) : sort2 a b = sort2C OrdCfg.live a b := rfl
+
+/-! ## The property theorems, for every choice of the key-comparing terminal comparators
+
+`cfg` ranges over all sort keys for `Constant` / geometric quantities / `Zero` (`OrdCfg.byRepr`: the `repr` strings,
+`OrdCfg.numeric`: domain sort key, shape, count, index dimensions — and any other combination of those parts). -/
+
+theorem C29_refl_cfg (cfg : OrdCfg) (a : Expr) : cmpC cfg a a = .eq := cmp_refl cfg a
+
+theorem C29_consistent_cfg (cfg : OrdCfg) (a b c : Expr) (ha : Sane a = true) (hb : Sane b = true) (hc : Sane c = true) :
+    consistent3 (cmpC cfg a b) (cmpC cfg b c) (cmpC cfg a c) = true := c3 cfg a ha b c hb hc
+
+theorem C29_antisym_cfg (cfg : OrdCfg) (a b : Expr) (ha : Sane a = true) (hb : Sane b = true) :
+    cmpC cfg b a = (cmpC cfg a b).swap := by
+  have := c3 cfg a ha b a hb ha
+  rw [cmp_refl cfg a] at this
+  cases h1 : cmpC cfg a b <;> cases h2 : cmpC cfg b a <;> simp_all [consistent3, Ordering.swap]
+
+theorem C29_trans_cfg (cfg : OrdCfg) (a b c : Expr) (ha : Sane a = true) (hb : Sane b = true) (hc : Sane c = true)
+    (h1 : cmpC cfg a b ≠ .gt) (h2 : cmpC cfg b c ≠ .gt) : cmpC cfg a c ≠ .gt :=
+  consistent3_le_trans _ _ _ (c3 cfg a ha b c hb hc) h1 h2
+
+theorem C29_tie_congr_cfg (cfg : OrdCfg) (a b c : Expr) (ha : Sane a = true) (hb : Sane b = true) (hc : Sane c = true)
+    (h : cmpC cfg a b = .eq) : cmpC cfg a c = cmpC cfg b c := by
+  have := c3 cfg a ha b c hb hc
+  rw [h] at this
+  cases h1 : cmpC cfg b c <;> cases h2 : cmpC cfg a c <;> simp_all [consistent3]
+
+theorem C29_sort2_order_independent_cfg (cfg : OrdCfg) (a b : Expr) (ha : Sane a = true) (hb : Sane b = true)
+    (h : cmpC cfg a b ≠ .eq) : sort2C cfg a b = sort2C cfg b a := by
+  have hs := C29_antisym_cfg cfg a b ha hb
+  unfold sort2C
+  cases h1 : cmpC cfg a b <;> simp_all [Ordering.swap]
+
+theorem C29_sort2_tie_cfg (cfg : OrdCfg) (a b : Expr) (h : cmpC cfg b a = .eq) : sort2C cfg a b = (a, b) := by
+  simp [sort2C, h]
+
+/-! ## The property theorems for `cmp_expr` of the tree under test (`Expr.cmp = cmpC OrdCfg.live`) -/
 
 /-- **reflexive**: an expression ties with itself (this is also what makes the `is`-shortcuts and
     the `equal_pairs` memo of the implementation sound) -/
-theorem C29_refl (a : Expr) : cmp a a = .eq := cmp_refl a
+theorem C29_refl (a : Expr) : cmp a a = .eq := cmp_refl _ a
 
 /-- **every triple is ordered consistently**: the three pairwise comparisons of any a, b, c are
     those of some weak ranking of the three -/
 theorem C29_consistent (a b c : Expr) (ha : Sane a = true) (hb : Sane b = true) (hc : Sane c = true) :
-    consistent3 (cmp a b) (cmp b c) (cmp a c) = true := c3 a ha b c hb hc
+    consistent3 (cmp a b) (cmp b c) (cmp a c) = true := c3 _ a ha b c hb hc
 
 /-- **antisymmetric**: cmp(b, a) = -cmp(a, b) -/
-theorem C29_antisym (a b : Expr) (ha : Sane a = true) (hb : Sane b = true) : cmp b a = (cmp a b).swap := by
-  have := c3 a ha b a hb ha
-  rw [cmp_refl a] at this
-  cases h1 : cmp a b <;> cases h2 : cmp b a <;> simp_all [consistent3, Ordering.swap]
+theorem C29_antisym (a b : Expr) (ha : Sane a = true) (hb : Sane b = true) : cmp b a = (cmp a b).swap :=
+  C29_antisym_cfg _ a b ha hb
 
 /-- **transitive**: a ≤ b and b ≤ c imply a ≤ c — the ordering is a total preorder -/
 theorem C29_trans (a b c : Expr) (ha : Sane a = true) (hb : Sane b = true) (hc : Sane c = true)
     (h1 : cmp a b ≠ .gt) (h2 : cmp b c ≠ .gt) : cmp a c ≠ .gt :=
-  consistent3_le_trans _ _ _ (c3 a ha b c hb hc) h1 h2
+  C29_trans_cfg _ a b c ha hb hc h1 h2
 
 /-- equivalence (tie) is a congruence for the ordering: tied expressions compare alike to any third -/
 theorem C29_tie_congr (a b c : Expr) (ha : Sane a = true) (hb : Sane b = true) (hc : Sane c = true)
-    (h : cmp a b = .eq) : cmp a c = cmp b c := by
-  have := c3 a ha b c hb hc
-  rw [h] at this
-  cases h1 : cmp b c <;> cases h2 : cmp a c <;> simp_all [consistent3]
+    (h : cmp a b = .eq) : cmp a c = cmp b c :=
+  C29_tie_congr_cfg _ a b c ha hb hc h
 
 /-- **order independence of the two-operand canonical sort** used by Sum, Product and Inner:
     whenever the operands do not tie, `sorted_expr((a, b))` and `sorted_expr((b, a))` are the same
     pair, so the constructed expression does not depend on the order the operands were given in -/
 theorem C29_sort2_order_independent (a b : Expr) (ha : Sane a = true) (hb : Sane b = true)
-    (h : cmp a b ≠ .eq) : sort2 a b = sort2 b a := by
-  have hs := C29_antisym a b ha hb
-  unfold sort2
-  cases h1 : cmp a b <;> simp_all [Ordering.swap]
+    (h : cmp a b ≠ .eq) : sort2 a b = sort2 b a :=
+  C29_sort2_order_independent_cfg _ a b ha hb h
 
 /-- when they tie, the given order is kept (Python's sort is stable) -/
-theorem C29_sort2_tie (a b : Expr) (h : cmp b a = .eq) : sort2 a b = (a, b) := by
-  simp [sort2, h]
+theorem C29_sort2_tie (a b : Expr) (h : cmp b a = .eq) : sort2 a b = (a, b) :=
+  C29_sort2_tie_cfg _ a b h
 
 /-! ## the defect that was repaired: with `zip`-truncated multi-index comparison the ordering had a cycle -/
 def cf (n : Nat) (sh : List Nat) : Expr := .term { cls := "Coefficient", key := "w" ++ toString n, shape := sh, count := n }
@@ -459,6 +571,20 @@ theorem C29_old_cycle_counterexample :
 example : Sane (ix (cf 1 [2, 2]) [0, 1]) = true ∧
     cmp (ix (cf 2 [2]) [0]) (ix (cf 3 [2, 2]) [0, 0]) = .lt ∧ cmp (ix (cf 3 [2, 2]) [0, 0]) (ix (cf 1 [2, 2]) [0, 1]) = .lt ∧
     cmp (ix (cf 2 [2]) [0]) (ix (cf 1 [2, 2]) [0, 1]) = .lt := by
+  decide +kernel
+
+/-! ## the two sets of comparators differ where a decimal numeral grows by a digit; both are total preorders -/
+def kst (c : Int) : Expr :=
+  .term { cls := "Constant", key := "Constant(Mesh(E, 1), (), " ++ toString c ++ ")", shape := [], count := c,
+          dom := [.n 2, .n 2, .s "Mesh", .n 1, .s "E"] }
+
+/-- non-vacuity of the `_cfg` theorems: constants 9, 10, 11 are ranked 10 < 11 < 9 by their reprs and 9 < 10 < 11 by their
+    numbers; `Zero`s that differ only in the count of their free index tie numerically and do not tie by repr -/
+example : Sane (kst 9) = true ∧
+    cmpC .byRepr (kst 10) (kst 11) = .lt ∧ cmpC .byRepr (kst 11) (kst 9) = .lt ∧ cmpC .byRepr (kst 10) (kst 9) = .lt ∧
+    cmpC .numeric (kst 9) (kst 10) = .lt ∧ cmpC .numeric (kst 10) (kst 11) = .lt ∧ cmpC .numeric (kst 9) (kst 11) = .lt ∧
+    cmpC .numeric (.zero [] [(9, 2)]) (.zero [] [(10, 2)]) = .eq ∧ cmpC .byRepr (.zero [] [(9, 2)]) (.zero [] [(10, 2)]) = .gt ∧
+    cmpC .numeric (.zero [] [(9, 2)]) (.zero [] [(10, 3)]) = .lt := by
   decide +kernel
 
 end UflVerif.C29
